@@ -10,27 +10,27 @@ import (
 // Layout selects one lexical rendering of a program. The zero value is: one statement per line,
 // LF line ends, single blanks between tokens, no comments.
 type Layout struct {
-	EOL          string // "\n" (default), "\r", "\r\n", "\n\r"
-	StmtSep      string // "nl" (default) | "sp" (statements separated by a blank only) | "semi" (`;` + newline) | "semisp" (`;` + blank)
-	Tabs         bool   // blanks are tabs
-	Indent       bool   // indent nested blocks (by two blanks)
-	BreakAtGap   int    // 1-based token gap at which an extra line break is inserted (0: none)
-	CommentAtGap int    // 1-based token gap at which Comment is inserted (0: none)
-	Comment      string // "--x\n"-style text; the printer counts its newlines
-	LeadingLines int    // blank lines in front of the chunk
-	ParenOperands bool  // redundant parentheses around single-valued operands of binary operators
+	EOL           string // "\n" (default), "\r", "\r\n", "\n\r"
+	StmtSep       string // "nl" (default) | "sp" (statements separated by a blank only) | "semi" (`;` + newline) | "semisp" (`;` + blank)
+	Tabs          bool   // blanks are tabs
+	Indent        bool   // indent nested blocks (by two blanks)
+	BreakAtGap    int    // 1-based token gap at which an extra line break is inserted (0: none)
+	CommentAtGap  int    // 1-based token gap at which Comment is inserted (0: none)
+	Comment       string // "--x\n"-style text; the printer counts its newlines
+	LeadingLines  int    // blank lines in front of the chunk
+	ParenOperands bool   // redundant parentheses around single-valued operands of binary operators
 }
 
 type printer struct {
-	b        strings.Builder
-	lay      Layout
-	line     int
-	gap      int // number of tokens emitted so far
-	noBreak  bool
-	indent   int
+	b           strings.Builder
+	lay         Layout
+	line        int
+	gap         int // number of tokens emitted so far
+	noBreak     bool
+	indent      int
 	atLineStart bool
-	pendingSep string
-	lastTok  string
+	pendingSep  string
+	lastTok     string
 }
 
 // Print renders a chunk and records token lines in its nodes.
@@ -323,7 +323,7 @@ func (p *printer) exprs(es []Expr) {
 }
 
 func (p *printer) funcBody(f *FuncExpr) {
-	p.tokx("(", true)
+	f.ParenLine = p.tokx("(", true)
 	for i, n := range f.Params {
 		if i > 0 {
 			p.tok(",")
@@ -457,9 +457,17 @@ func (p *printer) exprP(e Expr, minPrec int, start *int) {
 		p.mark(start, x.First)
 		x.Last = p.line
 	case *StrExpr:
-		x.First = p.tok(Quote(x.V))
+		lit := x.Raw
+		if lit == "" {
+			lit = Quote(x.V)
+		}
+		first := p.line
+		x.Last = p.tok(lit)
+		x.First = x.Last - strings.Count(lit, "\n")
+		if first > x.First {
+			x.First = first
+		}
 		p.mark(start, x.First)
-		x.Last = p.line
 	case *VarargExpr:
 		x.First = p.tok("...")
 		p.mark(start, x.First)
